@@ -99,6 +99,8 @@ pub enum Step {
     Move { who: usize, row: usize, to: usize, dt: i64 },
     Delete { who: usize, row: usize, dt: i64 },
     RefAdd { who: usize, row: usize, target: usize, dt: i64 },
+    /// the TARGET of an existing reference is renamed through a mutation of its (otherwise unchanged) source row
+    UpdateThroughParent { who: usize, row: usize, target: usize, dt: i64 },
     /// a reference added and removed again by the same caller before any peer synchronises: the peers only ever
     /// receive the record of its removal
     RefAddDel { who: usize, row: usize, target: usize, dt: i64 },
@@ -340,6 +342,12 @@ pub fn generate(seed: u64, property: &str, thorough: bool) -> Trace {
             }
             8 if nrows > 0 && n_rooms > 1 => steps.push(Step::Move { who, row: rw.usize(nrows), to: rw.usize(n_rooms), dt }),
             9 if nrows > 0 => steps.push(Step::Delete { who, row: rw.usize(nrows), dt }),
+            10 if nrows > 1 && rw.chance(1, 4) => {
+                // a reference, then its target renamed through the referring row by somebody (possibly somebody else)
+                let (row, target) = (rw.usize(nrows), rw.usize(nrows));
+                steps.push(Step::RefAdd { who, row, target, dt });
+                steps.push(Step::UpdateThroughParent { who: rw.usize(nodes), row, target, dt: 1000 + rw.range(0, DAY_MS) });
+            }
             10 if nrows > 1 && rw.chance(1, 4) => steps.push(Step::RefAddDel { who, row: rw.usize(nrows), target: rw.usize(nrows), dt }),
             10 if nrows > 1 => steps.push(Step::RefAdd { who, row: rw.usize(nrows), target: rw.usize(nrows), dt }),
             11 if nrows > 1 => steps.push(Step::RefDel { who, row: rw.usize(nrows), target: rw.usize(nrows), dt }),
@@ -408,6 +416,18 @@ pub fn directed(property: &str) -> Vec<Trace> {
                     Step::Move { who: 1, row: 0, to: 1, dt: DAY_MS },
                     Step::AddRight { who: 0, room: 0, group: 0, right: RightSpec { ent: 0, own: true, all: false }, dt: 3_600_000, nb: false },
                     Step::Move { who: 1, row: 1, to: 1, dt: DAY_MS },
+                ],
+            ));
+            out.push(mk(
+                "C01 a foreign row renamed through the row that refers to it, with the own-rows right only",
+                2,
+                vec![
+                    Step::NewRoom { who: 0, room: 0, admins: vec![0], groups: vec![own_only(vec![0, 1])], dt: 20 },
+                    Step::Create { who: 0, row: 0, room: 0, ent: 0, dt: DAY_MS, big: 0 },
+                    Step::Create { who: 0, row: 1, room: 0, ent: 0, dt: 1000, big: 0 },
+                    Step::RefAdd { who: 0, row: 0, target: 1, dt: 1000 },
+                    Step::UpdateThroughParent { who: 1, row: 0, target: 1, dt: DAY_MS },
+                    Step::UpdateThroughParent { who: 0, row: 0, target: 1, dt: DAY_MS },
                 ],
             ));
             out.push(mk(
@@ -1128,6 +1148,35 @@ fn exec_step(c: &mut Ctx, st: &Step) -> Result<(), String> {
             if res.is_ok() {
                 // the source row is written again, signed by the caller
                 c.rows[*row].author = who;
+                after_data_op(c, who, true)?;
+            }
+        }
+        Step::UpdateThroughParent { who, row, target, dt } => {
+            let who = *who % n;
+            let Some((id, ent, room, _author)) = row_info(c, *row) else { return Ok(()) };
+            let Some((tid, tent, troom, tauthor)) = row_info(c, *target) else { return Ok(()) };
+            if ent != 0 || tent != 0 || id == tid || room != troom {
+                return Ok(());
+            }
+            let Some(rr) = c.rooms.get(room).cloned().flatten() else { return Ok(()) };
+            let exists = {
+                let d = oracle::dump_room(&c.w.nodes[who].oracle_conn()?, &rr.uid)?;
+                let (s, t) = (dv::uid_decode(&id).map_err(|e| e.to_string())?, dv::uid_decode(&tid).map_err(|e| e.to_string())?);
+                d.edges.iter().any(|e| e.src == s.to_vec() && e.dest == t.to_vec())
+            };
+            if !exists {
+                return Ok(());
+            }
+            c.now += dt.max(&1);
+            sync_clocks(c);
+            let date = c.w.nodes[who].clock;
+            let own = tauthor == who;
+            // the source row is not changed (the reference exists): only the right to change the target row is needed
+            let exp = rr.can(who, "Person", date, !own);
+            let p = serde_json::json!({"id": id, "t": tid, "n": format!("row{target} through-parent v{}", c.ops)}).to_string();
+            let res = attempt(c, who, if own { "update-own-through-its-referrer" } else { "update-foreign-through-its-referrer" }, Some(exp), if own { "no-own-rows-right" } else { "no-all-rows-right" }, false, "mutate { Person{ id:$id parents:[{ id:$t name:$n }] } }", Some(p))?;
+            if res.is_ok() {
+                c.rows[*target].author = who;
                 after_data_op(c, who, true)?;
             }
         }
